@@ -268,7 +268,8 @@ impl EditState {
             }
         }
         let new_layer = self.buffer.layers.get_mut(layer_idx).unwrap().clone();
-        let op = super::undo_operations::UndoLayerChange::new(self.get_current_layer()?, area.start, old_layer, new_layer);
+        // the two snapshots are the whole layer, in layer coordinates
+        let op = super::undo_operations::UndoLayerChange::new(self.get_current_layer()?, Position::default(), old_layer, new_layer);
         let _ = self.push_plain_undo(Box::new(op));
         self.clear_selection()
     }
